@@ -945,7 +945,7 @@ func round7(w *World, r *Report, prop string) {
 		r.Rule("R04.27", "an unterminated token is an error wherever the input ends: every way out of ConstructToken has either read on with Next() or set an error (the end of input is detected in the collection loop, which no path may bypass)", 1)
 		r.guard("R04.27", func() { r7TokenEndDetected(w, r, "R04.27") })
 	case "C05":
-		r.Rule("R05.16", "a checked type assertion is checked: in package xpath no `v, ok := x.(T)` uses v while ignoring ok (a stack entry that is not a Datum must end the run with an error, not travel on as a nil Datum that yields neither a value nor an error)", 3)
+		r.Rule("R05.16", "a checked type assertion is checked: in package xpath no `v, ok := x.(T)` uses v while ignoring ok (a stack entry that is not a Datum must end the run with an error, not travel on as a nil Datum that yields neither a value nor an error)", 1)
 		r.guard("R05.16", func() { r8CommaOkUsed(w, r, "R05.16") })
 		r.Rule("R05.15", "a leafref predicate is evaluated only in the state its instructions were written for: LRefEquals raises its error unless exactly one key name element is pending", 1)
 		r.guard("R05.15", func() { r7ExactlyOneKeyName(w, r, "R05.15") })
